@@ -49,14 +49,15 @@ def main():
         notes="exit 0 pass / 1 violation / 2 undecided (never an alarm). Known findings: /verif/known_findings.txt. Design: /verif/DESIGN.md.",
         not_applicable=na,
     )
-    with open(os.path.join(VERIF, "MANIFEST.json"), "w") as fh:
-        json.dump(man, fh, indent=1)
     try:
         import jsonschema
-        jsonschema.validate(man, json.load(open("/root/.vp/MANIFEST.schema.json")))
-        print("MANIFEST.json valid: %d checks, %d not applicable" % (len(checks), len(na)))
+        jsonschema.validate(man, json.load(open("/root/.vp/MANIFEST.schema.json")))   # validate BEFORE writing
+        msg = "MANIFEST.json valid: %d checks, %d not applicable" % (len(checks), len(na))
     except ImportError:
-        print("MANIFEST.json written (jsonschema not importable in this interpreter)")
+        msg = "MANIFEST.json written (jsonschema not importable in this interpreter)"
+    with open(os.path.join(VERIF, "MANIFEST.json"), "w") as fh:
+        json.dump(man, fh, indent=1)
+    print(msg)
 
 
 if __name__ == "__main__":
